@@ -322,6 +322,30 @@ class SymKit(KitBase):
         self.I.getattr(lifted_ds, "_variants")[0] = v
         self.I.setattr(v, "data", X)
 
+    def native_attr(self, obj, name):
+        """Attribute of a lifted object as python values suitable for comparisons in contracts: lifted repository
+        objects are represented by lightweight records exposing their attributes."""
+        v = self.I.getattr(wrap(obj), name)
+
+        class Rec:
+            def __init__(s2, o):
+                s2.__dict__.update({k: (x if not isinstance(x, SV) else x.t) for k, x in o.attrs.items()})
+
+        def conv(x):
+            if isinstance(x, Obj):
+                return Rec(x)
+            if isinstance(x, (list, tuple)):
+                return type(x)(conv(y) for y in x)
+            if self.I.is_native_repo_instance(x):
+                return x
+            return x
+        return conv(v)
+
+    def shared_cells(self, a, b):
+        """Mutable heap cells reachable from both values (empty list = the two object graphs are independent)."""
+        fa, fb = sym_footprint(wrap(a)), sym_footprint(wrap(b))
+        return sorted(f"{fa[k][0]} at {fa[k][1]}" for k in set(fa) & set(fb))
+
     def stubbed(self, target, replacement, reason, thunk):
         """Run thunk with the real function `target` replaced by `replacement` (a contract-level function).  Every
         use is an ASSUMPTION recorded in the evidence with its reason."""
@@ -408,6 +432,13 @@ class SymKit(KitBase):
         return a
 
     def real_eq(self, a, b):
+        a, b = unwrap(a), unwrap(b)
+        a = a.t if isinstance(a, SV) else a
+        b = b.t if isinstance(b, SV) else b
+        if isinstance(a, float):
+            a = to_z3(a)
+        if isinstance(b, float):
+            b = to_z3(b)
         return a == b
 
     # ---- arrays (numpy model, see ndarray.py); cells are SV reals carrying a NaN flag
@@ -669,6 +700,13 @@ class ConcKit(KitBase):
     def stubbed(self, target, replacement, reason, thunk):
         return thunk()
 
+    def native_attr(self, obj, name):
+        return getattr(obj, name)
+
+    def shared_cells(self, a, b):
+        fa, fb = native_footprint(a), native_footprint(b)
+        return sorted(f"{fa[k][0]} at {fa[k][1]}" for k in set(fa) & set(fb))
+
     def callable(self, fn):
         return fn
 
@@ -830,6 +868,86 @@ class ConcKit(KitBase):
         lits = template.split("{}")
         m = _re.fullmatch("(-?\\d+)".join(_re.escape(x) for x in lits), s)
         return [int(g) for g in m.groups()] if m else None
+
+
+def sym_footprint(v, acc=None, seen=None, path=""):
+    """Mutable heap cells reachable from an interpreter value: {cell id: (type name, access path)}."""
+    import enum as _enum, re as _re, types as _types
+    from .ndarray import NDArr
+    acc = {} if acc is None else acc
+    seen = set() if seen is None else seen
+    if id(v) in seen:
+        return acc
+    if isinstance(v, (SV, SStr, int, float, complex, str, bytes, bool, type(None), type(Ellipsis), _enum.Enum, _re.Pattern, _types.ModuleType, type,
+                      _types.BuiltinFunctionType, _types.FunctionType, frozenset, range, slice, _types.MethodType, property, Func, Bound, LibFn)):
+        return acc
+    seen.add(id(v))
+    if isinstance(v, NDArr):
+        acc[("buf", id(v.buf))] = ("ndarray", path)
+        return acc
+    if isinstance(v, tuple):
+        for i, x in enumerate(v):
+            sym_footprint(x, acc, seen, f"{path}[{i}]")
+        return acc
+    if isinstance(v, Obj):
+        acc[("obj", id(v))] = (v.cls.__name__, path)
+        for k, x in v.attrs.items():
+            sym_footprint(x, acc, seen, f"{path}.{k}")
+        if v.store is not None:
+            for k, x in v.store.items():
+                sym_footprint(x, acc, seen, f"{path}[{k!r}]")
+        return acc
+    if isinstance(v, (list, set)):
+        acc[("cell", id(v))] = (type(v).__name__, path)
+        for i, x in enumerate(v):
+            sym_footprint(x, acc, seen, f"{path}[{i}]")
+        return acc
+    if isinstance(v, dict):
+        acc[("cell", id(v))] = ("dict", path)
+        for k, x in v.items():
+            sym_footprint(x, acc, seen, f"{path}[{k!r}]")
+        return acc
+    # an un-lifted native object (e.g. a native repository instance that was never touched): identity is its id
+    acc[("native", id(v))] = (type(v).__name__, path)
+    return acc
+
+
+def native_footprint(v, acc=None, seen=None, path=""):
+    import enum as _enum, re as _re, types as _types
+    import numpy as np
+    acc = {} if acc is None else acc
+    seen = set() if seen is None else seen
+    if id(v) in seen or isinstance(v, (int, float, complex, str, bytes, bool, type(None), type(Ellipsis), _enum.Enum, _re.Pattern, _types.ModuleType, type,
+                                       _types.BuiltinFunctionType, _types.FunctionType, frozenset, range, slice, _types.MethodType, property, np.generic)):
+        return acc
+    seen.add(id(v))
+    if isinstance(v, np.ndarray):
+        acc[("buf", id(v.base if v.base is not None else v))] = ("ndarray", path)
+        return acc
+    if isinstance(v, tuple):
+        for i, x in enumerate(v):
+            native_footprint(x, acc, seen, f"{path}[{i}]")
+        return acc
+    acc[("cell", id(v))] = (type(v).__name__, path)
+    if isinstance(v, (list, set)):
+        for i, x in enumerate(v):
+            native_footprint(x, acc, seen, f"{path}[{i}]")
+    elif isinstance(v, dict):
+        for k, x in v.items():
+            native_footprint(x, acc, seen, f"{path}[{k!r}]")
+        if hasattr(v, "__dict__"):
+            for k, x in vars(v).items():
+                native_footprint(x, acc, seen, f"{path}.{k}")
+    else:
+        for k in type(v).__mro__:
+            sl = getattr(k, "__slots__", ())
+            for s_ in (sl if isinstance(sl, (tuple, list)) else ()):
+                if hasattr(v, s_):
+                    native_footprint(getattr(v, s_), acc, seen, f"{path}.{s_}")
+        if hasattr(v, "__dict__"):
+            for k, x in vars(v).items():
+                native_footprint(x, acc, seen, f"{path}.{k}")
+    return acc
 
 
 def resolve_attr(owner, name):
